@@ -144,7 +144,7 @@ def run(ctx, res):
         dump = json.load(open(os.path.join(COQ, "Gen", "dump.json")))
         nonkw = {"ID", "DOT", "STRING_BASE", "DQ_STRING", "LP", "RP", "LT", "RT", "COMMAT", "EQ", "COMMA"}
         kws = [t for t in dump["tokens"] if t not in nonkw]
-        names = kws + [k.lower() for k in kws] + ["plain_1", "MixedCase", "[br]", "`bt`"]
+        names = kws + [k.lower() for k in kws] + ["plain_1", "MixedCase", "[br]", "`bt`", "temporary", "Temporary", "TEMPORARY", "bigfile", "SMALLFILE"]
         asts = []
         for nm_ in names:
             form = rng.randrange(7)
